@@ -62,7 +62,12 @@ INFO = dict(
              "order and for without_labels / remove_label / add_label; for a permuted request the request order is "
              "required",
              "the two bounding-box labellers are outside the re-indexing clause by the property text: only label "
-             "coverage and input purity are checked for them"],
+             "coverage and input purity are checked for them",
+             "DESIGN 6/C15 G also names a `labeller_func` / `validate_input` resolution table; not built — the size "
+             "check of every labeller is exercised behaviourally (probe of sizes 1..200 + wrong-size battery)",
+             "connectivity of a labeller's output is not a clause of the property text: it is tabulated, proved in "
+             "range for the 27 labellers returning a labelled graph (`edges_*` obligations) and reported as a side "
+             "finding otherwise (face_ibug_68_to_face_ibug_49_trimesh, see notes/fixes/C15-3-*.diff)"],
     assumptions=["label names are distinct strings; point coordinates of a generated graph are pairwise distinct "
                  "(used only to identify output points with input points)",
                  "without_labels is called with labels of the group (the property quantifies over subsets of labels)"],
